@@ -2,7 +2,9 @@ import Verif.Model.Common
 /-
   Model of SSH certificate issuance, renewal and rekey in /repo as far as certificate type,
   key id, principals, options and the choice of the signing key are concerned (property C14).
-  Validity arithmetic is C06's and is not modelled: requests and tokens carry no validity here.
+  Validity: the model covers who fixes the bounds (the `match` clauses request-vs-token, the order
+  request < token modifier, `ModifyValidity`'s validAfter > validBefore) for absolute instants; the
+  arithmetic (defaults, limits, minimum / maximum duration, wrap-around) is C06's.
 
   Modelled Go code (read line by line):
     * authority/provisioner/sign_ssh_options.go
@@ -16,6 +18,7 @@ import Verif.Model.Common
         `sshDefaultDuration.Modify` / `sshLimitDuration.Modify` fail for an unknown type -> `durationOK`
     * authority/provisioner/jwk.go, x5c.go `AuthorizeSSHSign`   -> `authorizeSign` (.jwk / .x5c)
       authority/provisioner/oidc.go `AuthorizeSSHSign`          -> `authorizeSign` (.oidc admin)
+      authority/provisioner/k8sSA.go `AuthorizeSSHSign`         -> `authorizeSign` (.k8ssa)
       authority/provisioner/nebula.go `AuthorizeSSHSign`, `nebulaPrincipalsValidator.Valid`
                                                                  -> `authorizeSign` (.nebula), `nebPrincipalsValid`
     * go.step.sm/crypto/sshutil `DefaultTemplate` ("type, key id, principals := data"),
@@ -23,6 +26,8 @@ import Verif.Model.Common
     * authority/ssh.go `signSSH` (ordering: Validate, option validators in list order, template,
       modifiers, signer selection by certificate type, signing, certificate validators) -> `signSSH`
       `renewSSH`, `rekeySSH` (field copy, signer selection)    -> `renewSSH`, `rekeySSH`
+    * authority/ssh.go `IsValidForAddUser`, `SignSSHAddUser`, `getAddUserPrincipal/Command` (defaults)
+                                                                 -> `validForAddUser`, `signAddUser`
     * authority/provisioner/sshpop.go `authorizeToken`, `AuthorizeSSHRenew`, `AuthorizeSSHRekey`,
       `AuthorizeSSHRevoke`; controller.go `DefaultAuthorizeSSHRenew`;
       authority/authorize.go `authorizeSSHCertificate` (revocation gate) -> `popAuthorize`, `popRenew`, `popRekey`
@@ -84,6 +89,7 @@ inductive Prov where
   | jwk | x5c
   | oidc (admin : Bool)
   | nebula
+  | k8ssa
   deriving Repr, DecidableEq
 
 /-- provisioner-specific credential data besides the token claims.
@@ -97,7 +103,39 @@ structure Oidc where
   nebName : Str
   nebIPs : List Str
   prinIP : List (Option Str)
+  /-- `validAfter` / `validBefore` of the token's `step.ssh` options (JWK, X5C, Nebula), as Unix
+      seconds; only absolute, positive instants are sent (relative durations and the arithmetic at
+      the edges are C06's) -/
+  tva : Option Nat
+  tvb : Option Nat
   deriving Repr, DecidableEq
+
+/-- `validAfter` / `validBefore` of the request's `SignSSHOptions` -/
+structure RVal where
+  va : Option Nat
+  vb : Option Nat
+  deriving Repr, DecidableEq
+
+def noVal : RVal := ⟨none, none⟩
+
+/-- the validity clauses of `SignSSHOptions.match`: a value present on both sides must be equal -/
+def validityMismatch (tok req : RVal) : Bool :=
+  (match tok.va, req.va with | some a, some b => a != b | _, _ => false) ||
+  (match tok.vb, req.vb with | some a, some b => a != b | _, _ => false)
+
+/-- `opts.ModifyValidity(certTpl)` on the template's certificate (no validity with the default
+    templates): both bounds requested and validAfter > validBefore is answered 400 -/
+def modifyValidityBad (req : RVal) : Bool :=
+  match req.va, req.vb with
+  | some a, some b => a > 0 && b > 0 && a > b
+  | _, _ => false
+
+/-- the bounds an issued certificate carries when somebody fixed them: the token's modifier
+    (`sshCertValidAfterModifier` / `…BeforeModifier`) overrides the request's value; `none` = the
+    CA's default (`sshDefaultDuration` / `sshLimitDuration`, property C06) -/
+def certValidity (tok req : RVal) : RVal :=
+  ⟨match tok.va with | some a => some a | none => req.va,
+   match tok.vb with | some b => some b | none => req.vb⟩
 
 /-- `nebulaPrincipalsValidator.Valid`: every principal is the certificate's name or parses as one
     of its addresses -/
@@ -150,6 +188,10 @@ def authorizeClaims (prov : Prov) (t : Token) (o : Oidc) : Auth :=
     let data : Data := if o.email = [] then ⟨.user, t.sub, []⟩ else ⟨.user, o.email, o.usernames⟩
     .ok { checks := [if admin then .require else .matches ⟨sUser, [], []⟩]
           data := data, tpl := if admin then .admin else .default }
+  | .k8ssa =>
+    -- sshutil.CertificateRequestTemplate: type, key id and principals are the request's, all three
+    -- required; the token (`sub` = service account name) fixes nothing
+    .ok { checks := [.require], data := ⟨.host, t.sub, [t.sub]⟩, tpl := .admin }
   | .nebula =>
     -- host certificates only; default principals = name and addresses of the Nebula certificate
     match t.ssh with
@@ -232,14 +274,17 @@ def checkOpts (req : Opts) : List OptCheck → Option Nat
 def keyStatus : KeyClass → Option Nat
   | .ok => none | .rsaSmall => some 403 | .dsa => some 400
 
-def signSSH (ca : CAKeys) (p : Plan) (req : Opts) (key : KeyClass) : Res :=
+def signSSH (ca : CAKeys) (p : Plan) (req : Opts) (key : KeyClass) (tv rv : RVal) : Res :=
   if validateOpts req = false then .refused 400 else
   match checkOpts req p.checks with
   | some st => .refused st
   | none =>
+    -- the validity clauses of the `match` against the token's options (same validator, same 403)
+    if validityMismatch tv rv then .refused 403 else
     match applyTemplate p req with
     | .fail => .refused 500
     | .cert c =>
+      if modifyValidityBad rv then .refused 400 else
       -- sshDefaultDuration.Modify needs a known type (always the case after the template)
       match selectSigner ca c.ct 500 with
       | .inl st => .refused st
@@ -254,11 +299,64 @@ def signSSH (ca : CAKeys) (p : Plan) (req : Opts) (key : KeyClass) : Res :=
 
 /-- Authorize + SignSSH as the /ssh/sign handler runs them; `Authority.Authorize` refuses every
     SSH sign / renew / rekey token when the authority has neither SSH key -/
-def sshSign (ca : CAKeys) (prov : Prov) (t : Token) (o : Oidc) (req : Opts) (key : KeyClass) : Res :=
+def sshSign (ca : CAKeys) (prov : Prov) (t : Token) (o : Oidc) (req : Opts) (key : KeyClass)
+    (rv : RVal) : Res :=
   if ca.user = false ∧ ca.host = false then .refused 401 else
   match authorizeSign prov t o with
   | .unauthorized => .refused 401
-  | .ok p => signSSH ca p req key
+  | .ok p => signSSH ca p req key ⟨o.tva, o.tvb⟩ rv
+
+/-! ### add-user certificate (`addUserPublicKey` of /ssh/sign) -/
+
+/-- authority/ssh.go `SSHAddUserPrincipal` -/
+def addUserPrincipal : Str := s "provisioner"
+
+/-- `getAddUserCommand(principal)` with the default `SSHAddUserCommand`
+    ("sudo useradd -m <principal>; nc -q0 localhost 22", one placeholder) -/
+def addUserCommand (principal : Str) : Str :=
+  s "sudo useradd -m " ++ principal ++ s "; nc -q0 localhost 22"
+
+/-- `strings.Index(x, "@") > 0` -/
+def atAfterFirst : Str → Bool
+  | [] => false
+  | _ :: rest => rest.contains 64
+
+/-- `IsValidForAddUser`: a user certificate with exactly one principal, or two when the second
+    looks like an e-mail address (what the OIDC provisioner adds) -/
+def validForAddUser (c : Cert) : Bool :=
+  c.ct = 1 &&
+  match c.principals with
+  | [_] => true
+  | [_, b] => atAfterFirst b
+  | _ => false
+
+structure AddUser where
+  keyID : Str
+  principals : List Str
+  forceCommand : Str
+  deriving Repr, DecidableEq
+
+/-- api/ssh.go `SSHSign` + `SignSSHAddUser`: when the request carries an `addUserPublicKey` and
+    the issued certificate qualifies, a second *user* certificate for that key is signed with the
+    user key: principal `provisioner`, key id `<first principal>-provisioner`, a `force-command`
+    critical option naming the first principal, the validity of the first certificate.
+    `none` = no such certificate (the request itself still succeeds). -/
+def signAddUser (subject : Cert) : Option AddUser :=
+  if validForAddUser subject then
+    match subject.principals with
+    | p :: _ => some ⟨p ++ s "-" ++ addUserPrincipal, [addUserPrincipal], addUserCommand p⟩
+    | [] => none
+  else none
+
+/-- … with the configuration in view: `getAddUserPrincipal` / `getAddUserCommand` read
+    `a.config.SSH.…`; since 0de53a5 (`nilGuard = true`) a missing `ssh` section means the defaults.
+    Before it (`nilGuard = false`) an authority that got its SSH signers through
+    `authority.WithSSHUserSigner` / `WithSSHHostSigner` and whose configuration has no `ssh` section
+    (`sshSection = false`) panicked there. -/
+def signAddUserM (nilGuard sshSection : Bool) (subject : Cert) : M (Option AddUser) :=
+  match signAddUser subject with
+  | none => .val none
+  | some a => if nilGuard || sshSection then .val (some a) else .crash
 
 /-! ### SSH-POP: renew, rekey, revoke -/
 
